@@ -1,8 +1,6 @@
 //@ C04 / C05 / C15 — the MILP bridge, relative to the documented microlp contract (prelude/libs/microlp.rs).
 @fn make_constraints_map_from_assignment @assumed -> r
     ensures true,
-@fn LpSolution::new @assumed -> r
-    ensures r.assignment == assignment, r.value == value, r.constraints == constraints, r.status == SolutionStatus::Optimal,
 @fn LpSolution::with_status -> r
     ensures r.assignment == self.assignment, r.value == self.value, r.constraints == self.constraints, r.status == status,
 @fn LpSolution::status -> r
